@@ -101,7 +101,10 @@ def units(rng, tier):
             sv = [rng.randint(0, 30) for _ in range(n)]
             srt = rng.random() < 0.4
             seq.append([sorted(sv) if srt else sv, 1 if srt else 0, rng.choice(["list", "tuple", "array"])])
-        us.append(U("objective_history", {"o": o, "ok": ok, "seq": seq, "sums": seq[0][0]}, "one-object-many-vectors", cmp=None))
+        hp = {"o": o, "ok": ok, "seq": seq, "sums": seq[0][0]}
+        if rng.random() < 0.5:
+            hp["decoy_k"] = rng.choice([k for k in range(1, 7) if k != ok])     # a second object of the same class, another k, built afterwards
+        us.append(U("objective_history", hp, "one-object-many-vectors", cmp=None))
     # ... and ONE weighted-objective object, its weights handed over as a list, a tuple or a numpy array, evaluated several times
     # (a weight vector that is consumed, converted lazily or normalised in place by the first evaluation shows at the second)
     for _ in range(150 if tier == "quick" else 1500):
